@@ -119,6 +119,11 @@ def cases(draw):
         r["world"] = {"salt": draw(st.integers(0, 10 ** 6)), "p_err": draw(st.sampled_from([0, 5, 11, 11, 6])),
                       "p_null": draw(st.sampled_from([0, 4, 7, 7])), "p_null_item": draw(st.sampled_from([0, 3, 6]))}
         reqs.append(r)
+        if r["variables"] and draw(st.booleans()):
+            # the same text (hence, through the entry points that take a Document, the same parsed tree) with other variable values
+            r2 = GD.revalued(draw, eff, r)
+            r2["world"] = r["world"] if draw(st.booleans()) else dict(r["world"], salt=draw(st.integers(0, 10 ** 6)))
+            reqs.append(r2)
     runs = [(draw(st.integers(0, len(reqs) - 1)), draw(st.sampled_from(ENTRIES))) for _ in range(draw(st.integers(len(reqs), 8)))]
     return {"spec": spec, "mode": mode, "requests": reqs, "runs": runs}
 
